@@ -8,6 +8,7 @@ type unit struct {
 	funcs           []string
 	hints           string   // Go declarations (types, constants, bodyless funcs) of what is used from other packages, pkg.X written pkg_X
 	actions         []string // receiver fields (interfaces to the outside) whose method calls are recorded, in order, as effects
+	bytestr         bool     // a Go string is a list of bytes (list Z): indexing, slicing, strings.HasPrefix/IndexByte/Index from Lib/GoLib.v
 	clock           bool     // time.Now() reads, and time.Sleep(d) advances, an explicit clock `now_` that is also passed to the untranslated methods of the receiver
 	drop            []string // statements calling something whose source text starts with one of these are left out (statistics, logging)
 }
@@ -73,4 +74,5 @@ type raft_SnapshotMeta struct {
 		hints: `
 func errors_Is(err, target error) bool
 `},
+	{name: "SqlToken", dir: "db", file: "state.go", funcs: []string{"isSQLSpace", "isSQLIDChar", "sqlToken"}, bytestr: true},
 }
